@@ -50,6 +50,7 @@ func init() {
 			{Name: "backoff-reset-when-lost-inside-the-attached-callback", Mode: "enum", Reset: kit.ResetGlobals, Body: lostInsideCallback, NeedCounters: []string{"backoff-was-reset"}},
 			{Name: "socket-with-several-dialers-and-listeners-closed", Mode: "enum", Reset: kit.ResetGlobals, Body: SeveralEndpointsClosed, NeedCounters: []string{"three-or-more-dialers-all-stopped"}},
 			{Name: "inproc-listener-restarts-while-a-dial-attempt-waits", Mode: "enum", Reset: kit.ResetGlobals, Body: InprocListenerRestarts, NeedCounters: []string{"reconnected-to-the-new-listener"}},
+			{Name: "connection-lost-during-a-slow-event-callback", Mode: "enum", Reset: kit.ResetGlobals, Body: SlowHook, NeedCounters: []string{"reconnected-after-a-loss-during-the-callback"}},
 			{Name: "socket-close-vs-new-dialer", Mode: "sched", Bound: map[string]int{"quick": 2, "thorough": 3}[tier], Reset: kit.ResetGlobals, Body: closeVsNewDialer},
 		}
 	})
@@ -757,6 +758,65 @@ func InprocListenerRestarts() {
 	}
 	kit.Observe("cycles=%d wait=%d had=%v", cycles, wait, hadConn)
 	kit.Must("Close", func() { _ = d.Close(); _ = l.s.Close() })
+}
+
+// SlowHook: the application's pipe event callback takes its time (0, half, twice or five times the
+// reconnect time) in Attaching or Attached, once or for every connection; while it runs the peer
+// drops the connection (or, PAIR with a peer already attached, the protocol refuses it).  Whatever
+// redial falls due during the callback is not lost: once the callbacks are quick again and the
+// peer accepts, the dialer has a live, attached connection within two reconnect intervals, and
+// traffic flows.
+func SlowHook() { SlowHookWith(xpub.NewSocket) }
+
+// SlowHookWith is SlowHook for a socket of the caller's choice (C02 runs it with PAIR).
+func SlowHookWith(mk func() (mangos.Socket, error)) {
+	rt := 100 * time.Millisecond
+	slow := []time.Duration{0, rt / 2, 2 * rt, 5 * rt}[kit.ChooseFree(4)]
+	at := []mangos.PipeEvent{mangos.PipeEventAttaching, mangos.PipeEventAttached}[kit.ChooseFree(2)]
+	times := 1 + kit.ChooseFree(3) // how many connections in a row are slow and lost
+	s, _ := mk()
+	_ = s.SetOption(mangos.OptionReconnectTime, rt)
+	_ = s.SetOption(mangos.OptionMaxReconnectTime, rt)
+	ep := vt.Get("slowhook")
+	ep.Script(vt.DialOK)
+	n := 0
+	attached, detached := 0, 0
+	s.SetPipeEventHook(func(ev mangos.PipeEvent, p mangos.Pipe) {
+		switch ev {
+		case mangos.PipeEventAttached:
+			attached++
+		case mangos.PipeEventDetached:
+			detached++
+		}
+		if ev == at && n < times {
+			n++
+			// the peer hangs up while the callback is still busy
+			if vp := ep.PipeAt(ep.NumPipes() - 1); vp != nil {
+				vp.DropNow()
+			}
+			if slow > 0 {
+				kit.Sleep(slow)
+			}
+		}
+	})
+	if err := s.DialOptions("vt://slowhook", map[string]interface{}{mangos.OptionDialAsynch: true}); err != nil {
+		kit.Failf("setup", "Dial: %s", kit.ErrName(err))
+	}
+	kit.Sleep(time.Duration(times)*(slow+rt) + 2*rt + time.Millisecond)
+	kit.Quiesce()
+	last := ep.PipeAt(ep.NumPipes() - 1)
+	if last == nil || !last.Alive() || attached-detached != 1 {
+		kit.Failf("dialer-gave-up:slow-callback", "the event callback took %v in %s for the first %d connection(s), each of which the peer dropped meanwhile; %v after the last of them the dialer has no live connection (connections made: %d, attached %d, detached %d; reconnect time %v)",
+			slow, map[mangos.PipeEvent]string{mangos.PipeEventAttaching: "Attaching", mangos.PipeEventAttached: "Attached"}[at], times, 2*rt, ep.NumPipes(), attached, detached, rt)
+	}
+	sc := kit.Start("Send", func() (interface{}, error) { return nil, s.Send([]byte("after-slow-callbacks")) })
+	kit.Quiesce()
+	if !sc.Done() || sc.Err != nil || last.NumSent() != 1 {
+		kit.Failf("no-traffic-after-reconnect", "publication after the reconnect: Send done=%v %s, the new connection was given %d message(s)", sc.Done(), kit.ErrName(sc.Err), last.NumSent())
+	}
+	kit.Count("reconnected-after-a-loss-during-the-callback")
+	kit.Observe("slow=%v at=%v times=%d pipes=%d", slow, at, times, ep.NumPipes())
+	kit.Must("Close", func() { _ = s.Close() })
 }
 
 // protocolRefusal: the transport connection succeeds but the protocol refuses the pipe (a PAIR
